@@ -167,6 +167,9 @@ def run(ctx):
         "template T(n) { signal input a; signal output o[2]; component c[2]; c[0] = U(); c[1] = U(); c[1].in <-- a * a * a; c[0].in <== a; o[0] <== c[0].out; o[1] <== c[1].out; }",
         "template T(n) { signal input a; signal input b; signal output o; component lt = LessThan(8); component nb[2]; nb[0] = Num2Bits(8); nb[1] = Num2Bits(254); "
         "nb[0].in <== a; nb[1].in <== b; lt.in[0] <== a; lt.in[1] <== b; o <== lt.out; }",
+        # a literal index that is not reduced: `r[p]` is `r[0]` (review 'latest2' f2: the literal was compared as written when propagation had not reached it)
+        "template T() { signal input a; signal output r[2]; r[21888242871839275222246405745257275088548364400416034343698204186575808495617] <-- a >> 1; r[0] === a; r[1] <== a; }",
+        "template T() { signal input a; signal output r[2]; r[0] <-- a >> 1; r[21888242871839275222246405745257275088548364400416034343698204186575808495617 + 0] === a; r[1] <== a; }",
     ] + [c08.gen_template(ctx.rng, k) for k in range(40 if ctx.tier == "quick" else 400)]
 
     def claims_of(rep):
@@ -209,6 +212,15 @@ def run(ctx):
                     cp, cn = claims_of(c)
                     gained = sorted(cp - fp - lab, key=str)
                     lost_alarm = sorted(fn - cn, key=str)
+                    # a constraint that mentions the assigned signal is listed at every stopping point (C08: *all* constraint statements): an index
+                    # whose value is not known yet is identified with every other one, so stopping early can only add labels to a CS0005 finding
+                    cut_assign = {r["primary"][0]["start"] for r in vlib.reports_of(c) if r["id"] == "CS0005" and r["primary"]}
+                    lost_label = sorted((x for x in lab if x[1] is not None and x[1][0] in cut_assign and x not in cp), key=str)
+                    if lost_label:
+                        l1 += 1
+                        ctx.violation("constraint-label-lost-by-stopping-early",
+                                      {"stage": "L1 every constraint mentioning the assigned signal is listed at every stopping point", "source": s2, "loop": which, "k": k,
+                                       "labels_only_at_the_fixpoint": [list(map(str, x)) for x in lost_label][:5], "broken": None})
                     if gained or lost_alarm:
                         l1 += 1
                         ctx.violation("claim-gained-by-stopping-early %s" % (gained or lost_alarm)[0][0],
